@@ -137,14 +137,17 @@ mod dtrait {
         user_panic_if_armed(2, "user:dflt");
         let mut parts = vec![];
         for j in 0..(a % 4) {
-            let arg = (a + j) % 8;
+            // K is an associated constant with a trait default (2) that the #[unimock] attribute overrides (1): the
+            // body must see the mock's value whichever instance (the mock itself or its delegation helper) runs it
+            let arg = (a + j * D1::K) % 8;
             parts.push(if j % 2 == 0 { d.r0(arg).take() } else { d.r1(arg).take() });
         }
         Val::new(format!("{name}({a})[{}]", parts.join(",")))
     }
 
-    #[unimock(api=DMock, unmock_with=[real_r0, _, real_u2(b, a), real_u3(self, b, a), _, _, _, _, _, _, real_mm, _, _, _, _, _])]
+    #[unimock(api=DMock, unmock_with=[real_r0, _, real_u2(b, a), real_u3(self, b, a), _, _, _, _, _, _, real_mm, _, _, _, _, _], const K: u8 = 1;)]
     pub trait D {
+        const K: u8 = 2;
         fn r0(&self, a: u8) -> Val;
         fn r1(&self, a: u8) -> Val;
         fn u2(&self, a: u8, b: u8) -> Val;
